@@ -87,7 +87,7 @@ def main():
         results = {}
         props = [pid] + [p for p in sys.argv[3:] if p.startswith("C") and p != pid]
         for prop in props:
-            for tier in ("quick", "thorough"):
+            for tier in (("quick",) if "--quick-only" in sys.argv else ("quick", "thorough")):
                 t0 = time.time()
                 e = dict(os.environ, VERIF_REPO=patched)
                 p = subprocess.run([os.path.join(ROOT, "check"), prop, "--tier", tier], cwd=ROOT, env=e, stdout=subprocess.PIPE,
